@@ -11,10 +11,13 @@ Lemma bridge_cache_state : Gen_Format.cache_getstate = Gen_Format.cache_init_par
 Proof. reflexivity. Qed.
 Lemma bridge_fanout_state : Gen_Format.fanout_getstate = Gen_Format.fanout_init_params.
 Proof. reflexivity. Qed.
-Lemma bridge_fanout_size_limit_rule : Gen_Format.fanout_size_limit_rule = SLAlwaysPassed.
+Lemma bridge_fanout_size_limit_rule : Gen_Format.fanout_size_limit_rule = SLWhenGivenOrNew.
 Proof. reflexivity. Qed.
 
 (* ---------------- the format is the released one ---------------- *)
+(* One recorded difference (repair of finding C18-F1): the released FanoutCache.__init__ handed size_limit to every
+   shard on every open; the current one hands it over when it was given or the shard is new.  Stated as such, not as an
+   equality; fanout_rule_compatible below says where the two rules agree. *)
 Lemma format_constants_frozen :
   Gen_Format.DBNAME = Format_5_6_3.DBNAME /\
   Gen_Format.DEFAULT_SETTINGS = Format_5_6_3.DEFAULT_SETTINGS /\
@@ -27,7 +30,7 @@ Lemma format_constants_frozen :
   Gen_Format.value_file_layout = Format_5_6_3.value_file_layout /\
   Gen_Format.queue = Format_5_6_3.queue /\
   Gen_Format.shard_dir_format = Format_5_6_3.shard_dir_format /\
-  Gen_Format.fanout_size_limit_rule = Format_5_6_3.fanout_size_limit_rule /\
+  (Format_5_6_3.fanout_size_limit_rule = SLAlwaysPassed /\ Gen_Format.fanout_size_limit_rule = SLWhenGivenOrNew) /\
   Gen_Format.cache_getstate = Format_5_6_3.cache_getstate /\
   Gen_Format.cache_init_params = Format_5_6_3.cache_init_params /\
   Gen_Format.fanout_getstate = Format_5_6_3.fanout_getstate /\
@@ -200,40 +203,166 @@ Section DictFacts.
   Qed.
 
   (* ---- FanoutCache ---- *)
-  Lemma fanout_given_other (divide : V -> V) (defaults given : dict) k :
-    zlist_eqb k size_limit_key = false ->
-    lookup k (fanout_given SLAlwaysPassed size_limit_key divide defaults given) = lookup k given.
+  (* settings.pop('size_limit', ...): the rest holds every other key unchanged and no size_limit *)
+  Lemma rest_lookup (given : dict) k :
+    lookup k (drop_keys [size_limit_key] given) = if zlist_eqb k size_limit_key then None else lookup k given.
+  Proof. rewrite lookup_drop. cbn [mem existsb]. rewrite orb_false_r. reflexivity. Qed.
+
+  Lemma rest_app_lookup (given : dict) v k :
+    lookup k (drop_keys [size_limit_key] given ++ [(size_limit_key, v)]) =
+    if zlist_eqb k size_limit_key then Some v else lookup k given.
   Proof.
-    intros Hk. unfold fanout_given.
-    assert (Hd : lookup k (drop_keys [size_limit_key] given) = lookup k given).
-    { rewrite lookup_drop. cbn [mem existsb]. rewrite Hk. reflexivity. }
-    destruct (match lookup size_limit_key given with Some v => Some v | None => lookup size_limit_key defaults end).
-    - rewrite lookup_app. cbn [lookup]. rewrite Hk. cbn [first_some]. exact Hd.
-    - exact Hd.
+    rewrite lookup_app, rest_lookup. cbn [lookup]. destruct (zlist_eqb k size_limit_key); cbn [first_some]; [reflexivity|].
+    destruct (lookup k given); reflexivity.
   Qed.
 
-  (* every setting except size_limit survives reopening a FanoutCache *)
-  Lemma fanout_reopen_partial (divide : V -> V) (meta defaults stored given g2 : dict) k :
-    map fst meta = map fst Gen_Format.METADATA ->
+  (* under every rule the other settings are handed to the shard unchanged *)
+  Lemma fanout_given_other rule (divide : V -> V) ex (defaults given : dict) k :
     zlist_eqb k size_limit_key = false ->
-    lookup k g2 = None ->
-    lookup k (fanout_open_settings divide defaults (fanout_stored_after divide meta defaults stored given) g2) =
-    lookup k (fanout_open_settings divide defaults stored given).
+    lookup k (fanout_given rule size_limit_key divide ex defaults given) = lookup k given.
   Proof.
-    intros Hmeta Hk Hg2. unfold fanout_open_settings, fanout_stored_after. rewrite bridge_fanout_size_limit_rule.
-    apply reopen_settings; [exact Hmeta|]. rewrite fanout_given_other; assumption.
+    intros Hk. unfold fanout_given.
+    destruct rule, (lookup size_limit_key given), ex, (lookup size_limit_key defaults);
+      rewrite ?rest_app_lookup, ?rest_lookup, ?Hk; reflexivity.
+  Qed.
+
+  (* what the current rule hands over for size_limit itself *)
+  Lemma fanout_given_size_limit (divide : V -> V) ex (defaults given : dict) :
+    lookup size_limit_key (fanout_given Gen_Format.fanout_size_limit_rule size_limit_key divide ex defaults given) =
+    match lookup size_limit_key given with
+    | Some v => Some (divide v)
+    | None => if ex then None else option_map divide (lookup size_limit_key defaults)
+    end.
+  Proof.
+    rewrite bridge_fanout_size_limit_rule. unfold fanout_given.
+    destruct (lookup size_limit_key given), ex, (lookup size_limit_key defaults);
+      rewrite ?rest_app_lookup, ?rest_lookup, ?zlist_eqb_refl; reflexivity.
+  Qed.
+
+  (* an existing shard opened without size_limit is handed exactly what the caller gave *)
+  Lemma fanout_given_existing (divide : V -> V) (defaults g2 : dict) k :
+    lookup size_limit_key g2 = None ->
+    lookup k (fanout_given Gen_Format.fanout_size_limit_rule size_limit_key divide true defaults g2) = lookup k g2.
+  Proof.
+    intros Hg. destruct (zlist_eqb k size_limit_key) eqn:Hk.
+    - apply zlist_eqb_spec in Hk. subst k. rewrite fanout_given_size_limit, Hg. reflexivity.
+    - apply fanout_given_other. exact Hk.
+  Qed.
+
+  Lemma size_limit_not_metadata : mem size_limit_key (map fst Gen_Format.METADATA) = false.
+  Proof. vm_compute. reflexivity. Qed.
+
+  (* (a) the statement that was refuted for the released rule, for EVERY setting: reopening an existing FanoutCache
+     (each shard exists) shows, for every key the reopen does not give, what the open before showed *)
+  Lemma fanout_reopen_settings (divide : V -> V) ex (meta defaults stored given g2 : dict) k :
+    map fst meta = map fst Gen_Format.METADATA ->
+    lookup k g2 = None ->
+    lookup k (fanout_open_settings divide true defaults (fanout_stored_after divide ex meta defaults stored given) g2) =
+    lookup k (fanout_open_settings divide ex defaults stored given).
+  Proof.
+    intros Hmeta Hg2. unfold fanout_open_settings, fanout_stored_after, fanout_open_settings_with, fanout_stored_after_with.
+    apply reopen_settings; [exact Hmeta|].
+    destruct (zlist_eqb k size_limit_key) eqn:Hk.
+    - apply zlist_eqb_spec in Hk. subst k. rewrite fanout_given_size_limit, Hg2. reflexivity.
+    - rewrite fanout_given_other; assumption.
+  Qed.
+
+  (* (a) read at the Settings table: an existing shard opened without size_limit shows the stored limit and leaves it stored *)
+  Lemma fanout_size_limit_kept (divide : V -> V) (meta defaults stored g2 : dict) v :
+    map fst meta = map fst Gen_Format.METADATA ->
+    lookup size_limit_key stored = Some v ->
+    lookup size_limit_key g2 = None ->
+    lookup size_limit_key (fanout_open_settings divide true defaults stored g2) = Some v /\
+    lookup size_limit_key (fanout_stored_after divide true meta defaults stored g2) = Some v.
+  Proof.
+    intros Hmeta Hs Hg.
+    assert (E : lookup size_limit_key (fanout_open_settings divide true defaults stored g2) = Some v).
+    { unfold fanout_open_settings, fanout_open_settings_with. rewrite open_settings_lookup, size_limit_not_metadata.
+      rewrite fanout_given_existing by exact Hg. rewrite Hg, Hs. reflexivity. }
+    split; [exact E|].
+    unfold fanout_stored_after, fanout_stored_after_with. rewrite stored_after_lookup.
+    - unfold fanout_open_settings, fanout_open_settings_with in E. rewrite E. reflexivity.
+    - rewrite Hmeta. exact size_limit_not_metadata.
+  Qed.
+
+  (* what a shard shows and stores when its Cache.__init__ is handed the limit x *)
+  Lemma handed_limit_shown_and_stored (meta defaults stored g : dict) x :
+    map fst meta = map fst Gen_Format.METADATA ->
+    lookup size_limit_key g = Some x ->
+    lookup size_limit_key (open_settings defaults stored g) = Some x /\
+    lookup size_limit_key (stored_after meta defaults stored g) = Some x.
+  Proof.
+    intros Hmeta Hg.
+    assert (E : lookup size_limit_key (open_settings defaults stored g) = Some x).
+    { rewrite open_settings_lookup, size_limit_not_metadata, Hg. reflexivity. }
+    split; [exact E|]. rewrite stored_after_lookup; [rewrite E; reflexivity|]. rewrite Hmeta. exact size_limit_not_metadata.
+  Qed.
+
+  (* (b) a new shard opened without size_limit gets the default total divided *)
+  Lemma fanout_new_shard_default (divide : V -> V) (meta defaults stored given : dict) d :
+    map fst meta = map fst Gen_Format.METADATA ->
+    lookup size_limit_key given = None ->
+    lookup size_limit_key defaults = Some d ->
+    lookup size_limit_key (fanout_open_settings divide false defaults stored given) = Some (divide d) /\
+    lookup size_limit_key (fanout_stored_after divide false meta defaults stored given) = Some (divide d).
+  Proof.
+    intros Hmeta Hg Hd. apply handed_limit_shown_and_stored; [exact Hmeta|].
+    rewrite fanout_given_size_limit, Hg, Hd. reflexivity.
+  Qed.
+
+  (* (c) a given size_limit is divided, shown and stored, whether the shard is new or not *)
+  Lemma fanout_given_size_limit_divided (divide : V -> V) ex (meta defaults stored given : dict) v :
+    map fst meta = map fst Gen_Format.METADATA ->
+    lookup size_limit_key given = Some v ->
+    lookup size_limit_key (fanout_open_settings divide ex defaults stored given) = Some (divide v) /\
+    lookup size_limit_key (fanout_stored_after divide ex meta defaults stored given) = Some (divide v).
+  Proof.
+    intros Hmeta Hg. apply handed_limit_shown_and_stored; [exact Hmeta|].
+    rewrite fanout_given_size_limit, Hg. reflexivity.
+  Qed.
+
+  (* where the current rule and the released one agree: on a new shard and whenever size_limit is given the shard's
+     Cache.__init__ is handed the very same dictionary; the repair only changes what an open WITHOUT size_limit hands to
+     a shard that EXISTS (nothing, instead of the default share) *)
+  Lemma fanout_rule_compatible (divide : V -> V) ex (defaults given : dict) :
+    ex = false \/ lookup size_limit_key given <> None ->
+    fanout_given Gen_Format.fanout_size_limit_rule size_limit_key divide ex defaults given =
+    fanout_given Format_5_6_3.fanout_size_limit_rule size_limit_key divide ex defaults given.
+  Proof.
+    intros H. rewrite bridge_fanout_size_limit_rule. change Format_5_6_3.fanout_size_limit_rule with SLAlwaysPassed.
+    unfold fanout_given. destruct (lookup size_limit_key given) as [v|]; [reflexivity|].
+    destruct H as [->|H]; [|contradiction H; reflexivity].
+    destruct (lookup size_limit_key defaults); reflexivity.
   Qed.
 End DictFacts.
 
-(* the full statement for FanoutCache fails at size_limit (finding C18-F1 / D17) *)
+(* the witness of the former finding C18-F1 (D17): FanoutCache(d, shards=2, size_limit=1000), closed, FanoutCache(d, shards=2) *)
 Definition d17_given : @dict sval := [(size_limit_key, SVInt 1000)].
-Lemma fanout_size_limit_refuted :
-  lookup size_limit_key (fanout_open_settings (sval_div 2) Gen_Format.DEFAULT_SETTINGS [] d17_given) = Some (SVInt 500) /\
+
+(* under the RELEASED rule the reopen overwrites the stored 500 with DEFAULT/2 *)
+Lemma released_fanout_size_limit_refuted :
+  lookup size_limit_key (fanout_open_settings_with Format_5_6_3.fanout_size_limit_rule (sval_div 2) false Gen_Format.DEFAULT_SETTINGS [] d17_given)
+  = Some (SVInt 500) /\
   lookup size_limit_key
-    (fanout_open_settings (sval_div 2) Gen_Format.DEFAULT_SETTINGS
-       (fanout_stored_after (sval_div 2) Gen_Format.METADATA Gen_Format.DEFAULT_SETTINGS [] d17_given) [])
+    (fanout_open_settings_with Format_5_6_3.fanout_size_limit_rule (sval_div 2) true Gen_Format.DEFAULT_SETTINGS
+       (fanout_stored_after_with Format_5_6_3.fanout_size_limit_rule (sval_div 2) false Gen_Format.METADATA Gen_Format.DEFAULT_SETTINGS [] d17_given) [])
   = Some (SVInt 536870912).
 Proof. split; vm_compute; reflexivity. Qed.
+
+(* under the rule of the current source the same reopen shows 500, and 500 stays stored *)
+Lemma fanout_size_limit_witness_kept :
+  lookup size_limit_key (fanout_open_settings (sval_div 2) false Gen_Format.DEFAULT_SETTINGS [] d17_given) = Some (SVInt 500) /\
+  lookup size_limit_key
+    (fanout_open_settings (sval_div 2) true Gen_Format.DEFAULT_SETTINGS
+       (fanout_stored_after (sval_div 2) false Gen_Format.METADATA Gen_Format.DEFAULT_SETTINGS [] d17_given) [])
+  = Some (SVInt 500) /\
+  lookup size_limit_key
+    (fanout_stored_after (sval_div 2) true Gen_Format.METADATA Gen_Format.DEFAULT_SETTINGS
+       (fanout_stored_after (sval_div 2) false Gen_Format.METADATA Gen_Format.DEFAULT_SETTINGS [] d17_given) [])
+  = Some (SVInt 500) /\
+  (* a new FanoutCache(shards=2) without the argument: DEFAULT / 2 *)
+  lookup size_limit_key (fanout_open_settings (sval_div 2) false Gen_Format.DEFAULT_SETTINGS [] []) = Some (SVInt 536870912).
+Proof. repeat split; vm_compute; reflexivity. Qed.
 
 (* a plain Cache keeps it (same witness) *)
 Lemma cache_size_limit_kept :
@@ -267,7 +396,7 @@ Lemma format_frozen :
    Gen_Format.value_file_layout = Format_5_6_3.value_file_layout /\
    Gen_Format.queue = Format_5_6_3.queue /\
    Gen_Format.shard_dir_format = Format_5_6_3.shard_dir_format /\
-   Gen_Format.fanout_size_limit_rule = Format_5_6_3.fanout_size_limit_rule /\
+   (Format_5_6_3.fanout_size_limit_rule = SLAlwaysPassed /\ Gen_Format.fanout_size_limit_rule = SLWhenGivenOrNew) /\
    Gen_Format.cache_getstate = Format_5_6_3.cache_getstate /\
    Gen_Format.cache_init_params = Format_5_6_3.cache_init_params /\
    Gen_Format.fanout_getstate = Format_5_6_3.fanout_getstate /\
@@ -313,23 +442,70 @@ Lemma reopen_settings_example :
   lookup size_limit_key (open_settings Gen_Format.DEFAULT_SETTINGS [] d17_given) = Some (SVInt 1000).
 Proof. split; [reflexivity|vm_compute; reflexivity]. Qed.
 
-Lemma fanout_reopen_partial_all {V} (divide : V -> V) (meta defaults stored given g2 : @dict V) k :
+(* the full statement for FanoutCache (every setting, size_limit included), plus what happens to size_limit in each case *)
+Lemma fanout_reopen_settings_all {V} (divide : V -> V) (meta defaults stored given : @dict V) (existed : bool) :
   map fst meta = map fst Gen_Format.METADATA ->
-  zlist_eqb k size_limit_key = false ->
-  lookup k g2 = None ->
-  lookup k (fanout_open_settings divide defaults (fanout_stored_after divide meta defaults stored given) g2) =
-  lookup k (fanout_open_settings divide defaults stored given).
-Proof. apply fanout_reopen_partial. Qed.
+  (* a later open of the (now existing) shard sees the same settings, except for what it is given itself *)
+  (forall g2 k, lookup k g2 = None ->
+     lookup k (fanout_open_settings divide true defaults (fanout_stored_after divide existed meta defaults stored given) g2) =
+     lookup k (fanout_open_settings divide existed defaults stored given)) /\
+  (* (a) an existing shard opened without size_limit shows the stored limit and leaves it stored *)
+  (forall v, existed = true -> lookup size_limit_key stored = Some v -> lookup size_limit_key given = None ->
+     lookup size_limit_key (fanout_open_settings divide existed defaults stored given) = Some v /\
+     lookup size_limit_key (fanout_stored_after divide existed meta defaults stored given) = Some v) /\
+  (* (b) a new shard opened without size_limit gets the default total divided *)
+  (forall d, existed = false -> lookup size_limit_key given = None -> lookup size_limit_key defaults = Some d ->
+     lookup size_limit_key (fanout_open_settings divide existed defaults stored given) = Some (divide d) /\
+     lookup size_limit_key (fanout_stored_after divide existed meta defaults stored given) = Some (divide d)) /\
+  (* (c) a given size_limit is divided, shown and stored, for new and existing shards *)
+  (forall v, lookup size_limit_key given = Some v ->
+     lookup size_limit_key (fanout_open_settings divide existed defaults stored given) = Some (divide v) /\
+     lookup size_limit_key (fanout_stored_after divide existed meta defaults stored given) = Some (divide v)) /\
+  (* every other given setting reaches the shard unchanged *)
+  (forall k, zlist_eqb k size_limit_key = false ->
+     lookup k (fanout_open_settings divide existed defaults stored given) = lookup k (open_settings defaults stored given)).
+Proof.
+  intros Hmeta. split; [intros g2 k Hg; apply fanout_reopen_settings; assumption|].
+  split; [intros v -> Hs Hg; apply fanout_size_limit_kept; assumption|].
+  split; [intros d -> Hg Hd; apply fanout_new_shard_default; assumption|].
+  split; [intros v Hg; apply fanout_given_size_limit_divided; assumption|].
+  intros k Hk. unfold fanout_open_settings, fanout_open_settings_with.
+  rewrite !open_settings_lookup, fanout_given_other by exact Hk. reflexivity.
+Qed.
 
-Lemma fanout_size_limit_refuted_ex :
+Lemma fanout_reopen_settings_example :
+  map fst Gen_Format.METADATA = map fst Gen_Format.METADATA /\
+  lookup size_limit_key (fanout_open_settings (sval_div 2) false Gen_Format.DEFAULT_SETTINGS [] d17_given) = Some (SVInt 500) /\
+  lookup size_limit_key
+    (fanout_open_settings (sval_div 2) true Gen_Format.DEFAULT_SETTINGS
+       (fanout_stored_after (sval_div 2) false Gen_Format.METADATA Gen_Format.DEFAULT_SETTINGS [] d17_given) [])
+  = Some (SVInt 500) /\
+  lookup size_limit_key
+    (fanout_stored_after (sval_div 2) true Gen_Format.METADATA Gen_Format.DEFAULT_SETTINGS
+       (fanout_stored_after (sval_div 2) false Gen_Format.METADATA Gen_Format.DEFAULT_SETTINGS [] d17_given) [])
+  = Some (SVInt 500) /\
+  lookup size_limit_key (fanout_open_settings (sval_div 2) false Gen_Format.DEFAULT_SETTINGS [] []) = Some (SVInt 536870912).
+Proof. split; [reflexivity|exact fanout_size_limit_witness_kept]. Qed.
+
+(* the former finding, as a statement about the RELEASED rule *)
+Lemma released_fanout_size_limit_refuted_ex :
   exists (defaults meta given : @dict sval) (divide : sval -> sval) v,
     map fst meta = map fst Gen_Format.METADATA /\
-    lookup size_limit_key (fanout_open_settings divide defaults [] given) = Some v /\
-    lookup size_limit_key (fanout_open_settings divide defaults (fanout_stored_after divide meta defaults [] given) []) <> Some v.
+    lookup size_limit_key (fanout_open_settings_with Format_5_6_3.fanout_size_limit_rule divide false defaults [] given) = Some v /\
+    lookup size_limit_key
+      (fanout_open_settings_with Format_5_6_3.fanout_size_limit_rule divide true defaults
+         (fanout_stored_after_with Format_5_6_3.fanout_size_limit_rule divide false meta defaults [] given) []) <> Some v.
 Proof.
   exists Gen_Format.DEFAULT_SETTINGS, Gen_Format.METADATA, d17_given, (sval_div 2), (SVInt 500).
-  destruct fanout_size_limit_refuted as [H1 H2]. split; [reflexivity|]. split; [exact H1|]. rewrite H2. discriminate.
+  destruct released_fanout_size_limit_refuted as [H1 H2]. split; [reflexivity|]. split; [exact H1|]. rewrite H2. discriminate.
 Qed.
+
+(* the repair changes nothing else: same dictionary handed to a new shard, and whenever size_limit is given *)
+Lemma fanout_rule_compatible_all {V} (divide : V -> V) (existed : bool) (defaults given : @dict V) :
+  existed = false \/ lookup size_limit_key given <> None ->
+  fanout_given Gen_Format.fanout_size_limit_rule size_limit_key divide existed defaults given =
+  fanout_given Format_5_6_3.fanout_size_limit_rule size_limit_key divide existed defaults given.
+Proof. apply fanout_rule_compatible. Qed.
 
 Lemma handle_free :
   (forall h d, let h' := setstate Gen_Format.cache_init_params (getstate Gen_Format.cache_getstate h) d in
